@@ -98,8 +98,13 @@ class AbstractJunction(AbstractCondition, ABC):
                         NamedQuery
                 ) and none_table not in condition.tables and not condition._inverted:
                     # Only positive queries are merged (merging would drop the NOT).
+                    # A merged query inner joins every table its conditions use, so
+                    # alternatives (OR) are only merged when they use the same tables.
                     named_query_dict[
-                        condition.name
+                        (
+                            condition.name,
+                            frozenset(condition.tables) if issubclass(cls, Or) else None
+                        )
                     ].add(
                         condition
                     )
@@ -108,7 +113,7 @@ class AbstractJunction(AbstractCondition, ABC):
 
         add_conditions(conditions)
 
-        for name, queries in named_query_dict.items():
+        for (name, _), queries in named_query_dict.items():
             # noinspection PyTypeChecker
             new_conditions.add(
                 NamedQuery(
